@@ -1,7 +1,7 @@
 (** C06 for the level-order family: the worklist loops equal the classic
     [levels] decomposition of the pruned tree. *)
 Require Import AT.Model.Base AT.Model.Rose AT.Model.Iter AT.Spec.IterSpec AT.Proofs.ListLemmas AT.Proofs.IterPost.
-Open Scope Z_scope.
+Local Open Scope Z_scope.
 
 (** ---- facts about [levels] ---- *)
 Lemma zip_app_nil_r a : zip_app a [] = a. Proof. destruct a; auto. Qed.
